@@ -112,11 +112,14 @@ func (s *Service) Start(ctx context.Context) error {
 		return ErrServiceReturned
 	}
 
-	if s.isRunning.Swap(true) {
-		return ErrServiceAlreadyStarted
-	}
+	// only the call that runs the once-body has started the
+	// service; every other caller, however it interleaves with
+	// the service finishing, gets a sentinel.
+	var first bool
 
 	s.doStart.Do(func() {
+		first = true
+		s.isRunning.Store(true)
 		defer s.isStarted.Store(true)
 		ec := &s.ec
 		ehSignal := make(chan struct{})
@@ -181,6 +184,13 @@ func (s *Service) Start(ctx context.Context) error {
 			ec.Add(s.Run(ctx))
 		}()
 	})
+
+	if !first {
+		if s.isFinished.Load() {
+			return ErrServiceReturned
+		}
+		return ErrServiceAlreadyStarted
+	}
 
 	return nil
 }
